@@ -14,14 +14,14 @@
    A "Symbols" trace (hdr.tree = one run) records convert_greek_and_symbols(text) the same way.  *)
 EXTENDS Omml, Json, IOUtils, TLCExt
 
-Traces == JsonDeserialize(IOEnv.TRACE_FILE)
+\* IOEnv is not constant-level: the file would be re-read at every use, so the trace is copied
+\* into the state once (TraceInit) and everything else reads the variable tr
+VARIABLES tid, l, tr, pat
+tvars == <<tid, l, tr, pat>>
 
-VARIABLES tid, l, pat
-tvars == <<tid, l, pat>>
-
-Tree == Traces[tid].hdr.tree
-Ev == Traces[tid].ev[l]
-IsEvent(a) == l <= Len(Traces[tid].ev) /\ Ev.a = a /\ l' = l + 1 /\ UNCHANGED <<tid, pat>>
+Tree == tr.hdr.tree
+Ev == tr.ev[l]
+IsEvent(a) == l <= Len(tr.ev) /\ Ev.a = a /\ l' = l + 1 /\ UNCHANGED <<tid, tr, pat>>
 
 \* a call site prints the same formula, or nothing when it is blank; it never fails the document
 SameOrAbsent(ch, out) ==
@@ -36,11 +36,12 @@ TraceAgain   == IsEvent("Again") /\ Ev.out2 = Ev.out
 TraceDocx    == IsEvent("Docx") /\ SameOrAbsent(Ev.doc, Ev.out)
 TracePptx    == IsEvent("Pptx") /\ SameOrAbsent(Ev.ppt, Ev.out)
 
-TraceInit == tid \in 1..Len(Traces) /\ l = 1 /\ pat = Pattern(Traces[tid].hdr.tree)
+TraceInit == LET T == JsonDeserialize(IOEnv.TRACE_FILE) IN
+             \E i \in 1..Len(T) : tid = i /\ l = 1 /\ tr = T[i] /\ pat = Pattern(T[i].hdr.tree)
 TraceNext == TraceTotal \/ TraceShape \/ TraceBalance \/ TraceAgain \/ TraceDocx \/ TracePptx
 TraceSpec == TraceInit /\ [][TraceNext]_tvars
 
 TraceAccept ==
-    /\ (l = Len(Traces[tid].ev) + 1) => PrintT(<<"ACCEPT", tid>>)
+    /\ (l = Len(tr.ev) + 1) => PrintT(<<"ACCEPT", tid>>)
     /\ (IOEnv.MBV_PROGRESS = "1") => PrintT(<<"AT", tid, l>>)
 =============================================================================
